@@ -213,7 +213,9 @@ def real_scheduler(sl):
         prev_kind = kind_map[kinds.cache[i - 1]]
         w = {execenv.R_DICT: 7, execenv.R_DICT_FAIL: 3, execenv.R_API: None}[prev_kind]
         if w is not None:
-            observe("slot %d is weight*C/T after slot %d" % (i, i - 1), (yielded[i] - yielded[i - 1]) * sl["target"] == w * clients)
+            # target, weights and client count are concrete here, so the slots are concrete doubles (3/14 is not exact): 1e-9 relative tolerance
+            dev = (yielded[i] - yielded[i - 1]) * sl["target"] - w * clients
+            observe("slot %d is weight*C/T after slot %d" % (i, i - 1), s_and(dev <= 1e-9 * w * clients, dev >= -1e-9 * w * clients))
 
 
 def abort_policy(sl):
